@@ -63,9 +63,10 @@ CHECKS = {
             "induction over the path; tie as C02 plus whole-buffer diffs around real setter calls; ASan+UBSan stand-alone builds",
             "Kernel-checked theorems: C07_set_exact (a generated setter changes exactly the value's bytes at the documented address "
             "of the addressed element and no other byte of memory, for all paths/indices/objects/memories), C07_loads (the header "
-            "words read are exactly those the documented layout consults along the path), C07_accesses_get_set. The in-bounds "
-            "clause is PARTIAL: checked on the model's access list for every generated object and by sanitizer runs of the real "
-            "emitted source, not yet a theorem over all writer-produced objects.",
+            "words read are exactly those the documented layout consults along the path), C07_accesses_get_set, C07_leaf_in_extent / "
+            "C07_store_in_extent (the element at the end of every nested path of a writer-produced reference-free object lies "
+            "inside the object's extent; the store changes only its bytes). That the C address of a path IS that element's address "
+            "is executed (leafAt against the library's slot addresses; compiled calls) and run under the sanitizers, not a theorem.",
             "Runtime not modelled: what the C compiler emits (witnessed by clang -fsanitize=address,undefined runs with the buffer "
             "image flush against the end of an exactly sized heap block).",
             "7/C07"),
@@ -133,17 +134,26 @@ CHECKS = {
     "C06": (LAY + "oracle: _from_buffer view vs constructor handle (value, size, shape, strides; writes through either)",
             "Kernel-checked theorems: C06_view_value (a view, which re-reads every cached quantity from the bytes, reads the value the "
             "constructor was given, at every nesting level), C06_view_shape, C06_view_size (the size word equals the planned size for "
-            "every dynamically sized type), C06_no_private_state.",
-            "Partial: the strides a view caches are compared by the oracle and the executable model; handle-side caches are Python "
-            "attributes compared with the model's on every case.",
+            "every dynamically sized type), C06_view_strides (the strides a view caches - class constants, header words or the item "
+            "unit - are get_strides(shape, order, unit) of the constructed object, for every axis order that is a permutation of the "
+            "axes), C06_item_at_index (for every shape, axis order and valid index tuple the view's address arithmetic reaches the item "
+            "at the tuple's memory position and reads the item written there, directly or through the offset table) with "
+            "C06_index_distinct, C06_write_seen_through_view (a store of a scalar element's bytes at its address is seen by a view of "
+            "the whole enclosing object as exactly that element replaced, for every nested path).",
+            "Partial: handle-side caches are Python attributes compared with the model's on every case; views through references "
+            "and the stale caches of EARLIER views after a whole-element replacement (known finding O-30) are tie + oracle.",
             "7/C06"),
     "C10": (LAY + "byte-level assignment model (setScalar / rewriteStr) executed on every generated assignment; oracle: deep re-read "
             "after every assignment vs the intended value with one element replaced",
-            "Kernel-checked theorems: C10_scalar_set_get / C10_scalar_frame (an assigned scalar slot reads back the value; every other "
-            "byte unchanged), C10_other_parts_unchanged(_string)_partial (any object whose extent is disjoint from the assigned slot - "
-            "sibling, parent header, unrelated object - reads as before), C10_sizes_unchanged.",
-            "Partial: the value-level statement along arbitrary nested paths and whole nested struct/array assignment are tie + "
-            "oracle; assignments interleaved with buffer growth rest on C04 (bytes preserved) + C01_read_local.",
+            "Kernel-checked theorems: C10_set_leaf_at_path (for every reference-free type, conforming value and nested path to a scalar "
+            "element: storing the element makes a view of the whole object read the value with exactly that element replaced; size "
+            "unchanged, store inside the object) and C10_set_leaf_again (closure under sequences of assignments); "
+            "C10_scalar_set_get / C10_scalar_frame, C10_other_parts_unchanged(_string)_partial (any object whose extent is disjoint "
+            "from the assigned slot reads as before), C10_sizes_unchanged. leafAt / updAt are executed against the library on every "
+            "generated scalar assignment.",
+            "Partial: whole nested struct/array assignment and paths through references are byte-level theorems (C11) + tie + oracle; "
+            "assignments interleaved with buffer growth rest on C04 (bytes preserved) + C01_read_local; known finding O-30 (earlier "
+            "views keep stale cached offsets after a same-size replacement that divides the element differently).",
             "7/C10"),
     "C11": (LAY + "refusal conditions of String._rewrite proved; image-at-the-raise compared for every malformed operation",
             "Kernel-checked theorems: C11_string_too_large / C11_capacity_too_large (refused exactly when more than the stored size is "
@@ -191,7 +201,9 @@ CHECKS = {
             "histories; Mirror oracle after every operation",
             "Kernel-checked theorems: C18_num_get, C18_rename / C18_no_rename (attributes, also renamed ones, read the buffer data), "
             "C18_ref_shares (a hybrid assigned to a Ref field of the same buffer is shared: the field records its location, the "
-            "attribute returns it, it becomes non-movable), C18_ref_across_buffers_refused (refused and nothing changes), "
+            "attribute returns it, it becomes non-movable), C18_ref_get_mirrors (in EVERY state the attribute of a Ref field is the "
+            "cached object only if the buffer refers to exactly it, else what the buffer refers to, or None), "
+            "C18_ref_across_buffers_refused (refused and nothing changes), "
             "C18_ref_none, C18_move_refused (nested / referenced / reference-holding objects), C18_copy_fresh (a copy is a new "
             "allocation in the requested buffer, distinct from every existing location).",
             "Partial: the Python object graph is abstracted by hand and the invariant over whole histories (every cached dressed "
